@@ -352,6 +352,45 @@ def nobypass_bits(nb, m, op, i, j):
     return None
 
 
+def bits_history(n1, n2, v, how):
+    """A size-constrained BIT STRING type is asked about a value of n1 bits, then about a numerically equal value of n2 bits
+    (leading zeros): each answer is the set-theoretic one, whatever was asked before."""
+    T = univ.BitString().subtype(subtypeSpec=constraint.ValueSizeConstraint(2, 4))
+    if v >= 2 ** n1 or v >= 2 ** n2:
+        raise Skip()
+
+    def payload(n):
+        return univ.SizedInteger(v).setBitLength(n) if n else ""
+
+    def accepted(fn):
+        try:
+            r = fn()
+        except error.PyAsn1Error:
+            return False
+        return r
+
+    a = accepted(lambda: T.clone(payload(n1)))
+    if (a is not False) != (2 <= n1 <= 4):
+        return "first value of %d bits: wrong answer" % n1
+    if how == 0:
+        r = accepted(lambda: T.clone(payload(n2)))
+    elif how == 1:
+        enc = der_encoder.encode(univ.BitString(payload(n2)))
+        r = accepted(lambda: ber_decoder.decode(substrate(enc), asn1Spec=T)[0])
+    elif how == 2:
+        if a is False:
+            raise Skip()
+        r = accepted(lambda: a.clone(payload(n2)))
+    else:
+        r = accepted(lambda: T.subtype(value=payload(n2)))
+    if (r is not False) != (2 <= n2 <= 4):
+        return "a %d-bit value %s under SIZE (2..4) after a %d-bit value with the same number was %s" % (
+            n2, "accepted" if r is not False else "rejected", n1, "accepted" if a is not False else "rejected")
+    if r is not False and len(r) != n2:
+        return "value has %d bits instead of %d" % (len(r), n2)
+    return None
+
+
 def nobypass_decode(v):
     T = univ.Integer().subtype(subtypeSpec=constraint.ValueRangeConstraint(LO, HI))
     enc = der_encoder.encode(univ.Integer(v))
@@ -446,6 +485,8 @@ SQ, ST = len(_str_trees("quick")), len(_str_trees("thorough"))
 from vfw.obl import split_range
 
 OBLIGATIONS = [
+    Obl("bits_history", bits_history, {"n1": I(0, 6), "n2": I(0, 6), "v": I(0, 3), "how": I(0, 3)}, shards=[{"how": C(h)} for h in range(4)], budget=120,
+        doc="two numerically equal BIT STRING values of different lengths put to one size-constrained type in a row (construction, decoding, clone, subtype)"),
     Obl("denot_int", denot_int, {"tier": C(0), "ti": I(0, NQ - 1), "v": I(-30, 130), "via_type": B}, shards=split_range("ti", 0, NQ - 1, 16), budget=120, tiers=("quick",),
         doc="integer constraint trees up to depth 2: acceptance == set-theoretic denotation for every candidate in range"),
     Obl("denot_int_deep", denot_int, {"tier": C(1), "ti": I(0, NT - 1), "v": I(-30, 130), "via_type": B}, shards=split_range("ti", 0, NT - 1, 32), thorough_budget=400,
